@@ -31,9 +31,9 @@ FAMILIES = {
                           dict(Conns=[1, 2, 3], MaxPid=3, Kinds=["Join"], MaxEid=1)]),          # 3 connections: 15 k / 45 s
     "pose": dict(quick=dict(Kinds=["Join", "EntityAdd", "EntityDelete", "Pose"], MaxSid=1, MaxU=1, JoinSids=[0, 1],
                             MaxEid=1, PxVals=[2], MaxQ=1),                                      # 154 k / 60 s
-                 thorough=[]),
+                 thorough=[dict(EntPx=[1, 2])]),                                                # 250 k / 102 s
     "comps": dict(quick=dict(Kinds=COMPS_KINDS, MaxSid=1, MaxU=1, JoinSids=[0, 1], MaxEid=1, DataVals=[1]),                 # 2.8 k
-                  thorough=[]),
+                  thorough=[dict(Kinds=COMPS_KINDS + ["GetName", "GetId"])]),                   # 2.9 k / 10 s
     "mods": dict(quick=dict(Kinds=["Join", "EntityAdd", "EntityDelete", "Action", "AssetAdd"], MaxSid=1, MaxU=1, JoinSids=[0, 1],
                             MaxEid=1, AtsVals=[1, 2], MaxAid=2, DataVals=[1, 2]),               # equal timestamps, other data
                  thorough=[dict(MaxEid=2),                                                      # 19 k / 84 s
@@ -41,7 +41,7 @@ FAMILIES = {
     "custom": dict(quick=dict(Conns=[1, 2, 3], MaxPid=3, Kinds=["Join", "Custom"], MaxSid=1, MaxU=1, JoinSids=[0, 1],
                               Lens=[10240, 10241], ToLists="ToListsFull"),                      # 0.4 k
                    thorough=[dict(Lens=[0, 10240, 10241]),                                      # 0.4 k
-                             dict(MaxSid=2, MaxU=2, JoinSids=[0, 1, 2])]),                      # 4.8 k / 19 s
+                             dict(MaxSid=2, MaxU=2, JoinSids=[0, 1, 2], Lens=[0, 10240, 10241])]),   # 4.8 k / 21 s
 }
 
 
